@@ -16,6 +16,6 @@ CONSTANTS
  RunToBlock = TRUE
  Mut = "none"
 SPECIFICATION Spec
-INVARIANTS InvPausedQuiet InvFlushFresh InvPauseSurvives InvTerminatedGone InvReset InvC11 InvNeverPropagated InvLoopShape InvStatusMachine ExportBehaviour
+INVARIANTS InvPausedQuiet InvFlushFresh InvPauseSurvives InvTerminatedGone InvReset InvC11 InvNeverPropagated InvLoopShape InvStatusMachine InvRecycle ExportBehaviour
 VIEW View
 CHECK_DEADLOCK FALSE
